@@ -272,7 +272,7 @@ func (c *capacityLRU) adjustSize(key interface{}, sizeInBytes int64) {
 	v.size = sizeInBytes
 	element.Value = v
 	c.currentCapacityInBytes += sizeInBytes
-	c.evictIfNeeded()
+	// Eviction (if needed) is the responsibility of the caller, which has to report it.
 }
 
 func (c *capacityLRU) shouldEvict() bool {
